@@ -329,16 +329,22 @@ def dispatch_rule(run, ctx):
                     for pth in S.paths_of(a["body"]):
                         if pth.exit in ("fall", "return") and not any(ev.kind == "call" and H.canon(mc[0]) == ev.a for ev in pth.events):
                             run.violation(fam, label, "%s/wrap-shortcut" % sp, H.where(a), "%s: the Wrap arm answers %s on a path that never searches with the wrapped regex" % (sp, (pth.val or "")[:40]))
-                    inp = H.canon(mc[0]["args"][0])
-                    if pos_p:
-                        want = "regex_automata::Input::new(%s).span(%s..len(%s))" % (TEXT, POS, TEXT)
-                        alt = "Input::new(%s).span(%s..len(%s))" % (TEXT, POS, TEXT)
-                        if inp not in (want, alt) and not inp.endswith("Input::new(%s).span(%s..len(%s))" % (TEXT, POS, TEXT)):
-                            run.violation(fam, label, "%s/wrap-input" % sp, H.where(mc[0]),
-                                          "%s: wrapped regex searches %s, expected Input::new(%s).span(%s..%s.len())" % (sp, inp, TEXT, POS, TEXT))
-                    else:
-                        if inp != TEXT and not inp.endswith("Input::new(%s)" % TEXT):
-                            run.violation(fam, label, "%s/wrap-input" % sp, H.where(mc[0]), "%s: wrapped regex searches %s, expected the whole %s" % (sp, inp, TEXT))
+                    # named locals of the arm (`let input = Input::new(..)..`) are looked through
+                    lets = {}
+                    for nd in H.walk(a["body"]):
+                        if nd.get("k") == "Let" and nd.get("init") is not None and nd["pat"].get("k") == "Binding" and not nd["pat"].get("mut"):
+                            lets[nd["pat"]["name"]] = H.canon(nd["init"])
+                    for call in mc:
+                        if not call["args"]:
+                            continue
+                        inp = H.subst_lets(H.canon(call["args"][0]), lets)
+                        if pos_p:
+                            if not inp.endswith("Input::new(%s).span(%s..len(%s))" % (TEXT, POS, TEXT)):
+                                run.violation(fam, label, "%s/wrap-input" % sp, H.where(call),
+                                              "%s: wrapped regex searches %s, expected Input::new(%s).span(%s..%s.len()) (every search of the wrapped regex must see the caller's whole text: anchors and look-around at the edges depend on it)" % (sp, inp, TEXT, POS, TEXT))
+                        else:
+                            if inp != TEXT and not inp.endswith("Input::new(%s)" % TEXT):
+                                run.violation(fam, label, "%s/wrap-input" % sp, H.where(call), "%s: wrapped regex searches %s, expected the whole %s" % (sp, inp, TEXT))
     # forwarding wrappers
     fwd = {"Regex::find": ("find_from_pos", "{t},0"), "Regex::captures": ("captures_from_pos", "{t},0")}
     n_fwd = 0
@@ -757,7 +763,7 @@ def own_matches(run, ctx):
                     fl = [x for x in (pl.get("p") or []) if x["k"] == "Field" and x.get("adt") == A and x.get("name") in ("last_end", "last_match")]
                     if fl:
                         n += 1
-                        if sp not in allowed:
+                        if not ctx.facts.owned_by(sp, allowed):
                             sp_ = st["span"]
                             run.violation(fam, label, "%s/%s" % (sp, fl[0]["name"]), "%s:%d" % (sp_["file"], sp_["line"]),
                                           "Matches.%s is written in %s: the iteration state may only be advanced by the iterator itself" % (fl[0]["name"], sp))
@@ -798,7 +804,7 @@ def own_split(run, ctx):
                     fl = [x for x in (pl.get("p") or []) if x["k"] == "Field" and x.get("adt") == A and x.get("name") in ("next_start", "target")]
                     if fl:
                         n += 1
-                        if sp not in allowed:
+                        if not ctx.facts.owned_by(sp, allowed):
                             sp_ = st["span"]
                             run.violation(fam, label, "%s/%s" % (sp, fl[0]["name"]), "%s:%d" % (sp_["file"], sp_["line"]),
                                           "Split.%s is written in %s" % (fl[0]["name"], sp))
